@@ -197,6 +197,36 @@ Definition body_read (c : cfg) (n : nat) (r : breader) (st : stream) (al : alloc
       end
   end.
 
+(* a read with an EMPTY buffer (an application quirk, e.g. read(&mut []) or a zero-sized Vec): the
+   underlying reader returns Ok(0), which the fuse takes for the end of the body: it drops the inner
+   reader, whose Drop discards / drains what is left of the body, and the application sees
+   end-of-stream from then on. The Cursor of a pre-read body and the raw upgrade stream are not
+   fused: Ok(0), nothing changes. *)
+Definition body_read_zero (c : cfg) (r : breader) (st : stream) (al : allocs)
+  : rres * breader * stream * allocs :=
+  match r with
+  | BLimited rem =>
+      if (rem =? 0)%N then (REof, BEmpty, st, al)
+      else match sbytes st with
+           | [] => if seof st then let '(st2, al2) := discard c 1 rem st al in (REof, BEmpty, st2, al2)
+                   else (RBlock, r, st, al)      (* BufReader::fill_buf waits for the socket *)
+           | _ => let '(st2, al2) := discard c (S (List.length (sbytes st))) rem st al in (REof, BEmpty, st2, al2)
+           end
+  | BChunked rem fin =>
+      if fin then (REof, BEmpty, st, al)
+      else if fix_d4 c then (REof, BEmpty, drain_chunked (S (List.length (sbytes st))) rem st, al)
+      else body_read c 0 r st al                 (* as found: the decoder itself sees the empty buffer *)
+  | _ => (REof, r, st, al)
+  end.
+
+(* one application read with a buffer of any size *)
+Definition body_read_any (c : cfg) (n : nat) (r : breader) (st : stream) (al : allocs)
+  : rres * breader * stream * allocs :=
+  match n with
+  | O => body_read_zero c r st al
+  | S _ => body_read c n r st al
+  end.
+
 (* dropping the reader when the request goes away *)
 Definition body_drop (c : cfg) (r : breader) (st : stream) (al : allocs) : stream * allocs :=
   match r with
@@ -218,7 +248,7 @@ Fixpoint take (c : cfg) (fuel : nat) (m : N) (n : nat) (r : breader) (st : strea
   | S f =>
       if (m =? 0)%N then (acc, EndCount, r, st, al) else
       let want := N.to_nat (N.min m (N.of_nat n)) in
-      match body_read c want r st al with
+      match body_read_any c want r st al with
       | (RData d, r1, st1, al1) => take c f (m - len d)%N n r1 st1 al1 (d :: acc)
       | (REof, r1, st1, al1) => (acc, EndEof, r1, st1, al1)
       | (RErr, r1, st1, al1) => (acc, EndErr, r1, st1, al1)
